@@ -269,6 +269,26 @@ func (c *ctx) ocClientSends() {
 func init() {
 	props["C13"] = func(c *ctx) {
 		c.framingBoundary(0xc0, 0xc1)
+		// the largest configurations as commands to an emulator: what it then encodes with is the last setting's identifier
+		for _, n := range []int{1, 63, 64, 511, 512} {
+			cfg := make(xsens.OutputConfiguration, n)
+			for j := range cfg {
+				cfg[j] = c.inRangeSetting()
+			}
+			cfg[n-1].DataType = supportedTypes[c.rng.Intn(len(supportedTypes))] // the probe needs a value of that type
+			payload, _ := cfg.Marshal()
+			c.emitEmu("emu", []eev{
+				{kind: "recv", frame: xsens.NewMessage(xsens.MessageIdentifierSetOutputConfiguration, payload)},
+				{kind: "lastid"},
+				{kind: "marshal", dtype: cfg[n-1].DataType},
+				// then the empty configuration: nothing is configured any more
+				{kind: "recv", frame: xsens.NewMessage(xsens.MessageIdentifierSetOutputConfiguration, nil)},
+				{kind: "marshal", dtype: cfg[n-1].DataType},
+				{kind: "recv", frame: xsens.NewMessage(xsens.MessageIdentifierSetOutputConfiguration, payload)},
+				{kind: "recv", frame: xsens.NewMessage(xsens.MessageIdentifierGotoMeasurement, nil)},
+				{kind: "lastid"},
+			})
+		}
 		c.ocClientSends()
 		c.ocClientResults(c.pick(120, 1500))
 		// decoding into the emulator's kept configuration while other goroutines encode
@@ -435,9 +455,14 @@ func init() {
 	}
 
 	props["C14"] = func(c *ctx) {
+		var bigFirst int // when > 0: an unrelated frame with that many data bytes precedes the reply
 		var again []byte // when set: the same query is made once more (acknowledge payload `again`) before the first result is looked at
 		query := func(name string, ack xsens.MessageIdentifier, payload []byte) {
-			stream := append([]byte(xsens.NewMessage(xsens.MessageIdentifierWakeup, nil)), xsens.NewMessage(ack, payload)...)
+			stream := []byte(xsens.NewMessage(xsens.MessageIdentifierWakeup, nil))
+			if bigFirst > 0 {
+				stream = append(stream, xsens.NewMessage(xsens.MessageIdentifierMTData2, make([]byte, bigFirst))...)
+			}
+			stream = append(stream, xsens.NewMessage(ack, payload)...)
 			if again != nil {
 				stream = append(stream, xsens.NewMessage(ack, again)...)
 			}
@@ -596,6 +621,18 @@ func init() {
 				query(q.name, q.ack, c.payload(256))
 			}
 		}
+		// the largest frames a device may send, in front of the reply
+		for _, q := range qs {
+			for _, big := range []int{2046, 2047, 2048} {
+				bigFirst = big
+				if q.name == "GetProductCode" {
+					query(q.name, q.ack, ascii(12))
+				} else {
+					query(q.name, q.ack, c.payload(8))
+				}
+			}
+		}
+		bigFirst = 0
 		// a result belongs to the caller: it is looked at after the same query has been answered again (same size,
 		// shorter, longer)
 		for _, q := range qs[3:] {
